@@ -44,7 +44,7 @@ func termOfBytes(bs []*Term) *Term {
 }
 
 func init() {
-	api := "github.com/alephium/wormhole-fork/node/pkg/zzverif."
+	api := "zzverif."
 	exact[api+"AssumeCollisionFree"] = func(e *Engine, st *State, fn *ssa.Function, args []Value, retTo *ssa.Call) (Value, bool) {
 		ks := st.keccaks
 		for i := 0; i < len(ks); i++ {
